@@ -45,3 +45,76 @@ contract("artap.operators:Selector.fast_nondominated_sorting", props=["C02", "C0
          modifies=["each(individuals).features.front_number", "each(individuals).features.domination_counter",
                    "each(individuals).features.dominate", "each(individuals).features.crowding_distance", "$list.Int", "$len.Int"],
          allocates=["$list.Ref", "$len.Ref", "$list.Int", "$len.Int"])
+
+# ---- deductive part of C02: front 1 is EXACTLY the non-dominated subset (and no front number is below 1) -----------------------
+# proved for every population and input order with weak counter invariants (no cardinalities needed):
+#   counter[x] >= 0  and  (counter[x] == 0  <=>  no pair compared so far shows a dominator of x)
+define("cnt", ["x"], "x.features['domination_counter']")
+define("doml", ["x"], "x.features['dominate']")
+# the sorter only ever evaluates compare(X[min], X[max]); it reads verdict 1 as "the earlier one dominates" and verdict 2 as "the later
+# one dominates".  domidx is that reading (comparator-agnostic); for the Pareto comparator it coincides with Dom (lemmas below).
+define("domidx", ["s", "X", "b", "c"],
+       "(b < c and acmp(s.comparator, X[b].costs_signed, X[c].costs_signed) == 1) or "
+       "(c < b and acmp(s.comparator, X[c].costs_signed, X[b].costs_signed) == 2)")
+define("nondom", ["s", "X", "c"], "not exists(lambda b: domidx(s, X, b, c), 0, len(X))")
+_PQ = [("p", "List[Real]"), ("q", "List[Real]")]
+lemma("pareto_verdict_2_means_other_dominates", props=["C02"], vars=_PQ, hyps=["wf2(p, q)", "pareto_spec(p, q) == 2"], goal="pareto_spec(q, p) == 1")
+lemma("pareto_verdict_1_means_other_is_dominated", props=["C02"], vars=_PQ, hyps=["wf2(p, q)", "pareto_spec(q, p) == 1"], goal="pareto_spec(p, q) == 2")
+lemma("pareto_never_dominates_itself", props=["C02"], vars=_PQ[:1], hyps=["len(p) >= 2"], goal="pareto_spec(p, p) != 1")
+# pair {b, c} has been compared when the outer loop is at row i and the inner loop at column j
+define("seen2", ["b", "c", "i", "j"], "(b < c and (b < i or (b == i and c < j))) or (c < b and (c < i or (c == i and b < j)))")
+define("domseen", ["s", "X", "c", "i", "j"], "exists(lambda b: domidx(s, X, b, c) and seen2(b, c, i, j), 0, len(X))")
+define("cnt_inv", ["s", "X", "i", "j"],
+       "forall(lambda c: cnt(X[c]) >= 0 and ((cnt(X[c]) == 0) == (not domseen(s, X, c, i, j))), 0, len(X))")
+define("doml_wf", ["X", "n"],
+       "forall(lambda c: valid(doml(X[c])) and fresh(doml(X[c])), 0, n) and "
+       "forall(lambda c, d: implies(c != d, doml(X[c]) is not doml(X[d])), (0, n), (0, n)) and "
+       "forall(lambda c: forall(lambda t: exists(lambda b: doml(X[c])[t] == X[b].id, 0, len(X)), 0, len(doml(X[c]))), 0, n)")
+define("front1_exact", ["s", "X"], "forall(lambda c: (not is_none(fr(X[c])) and fr(X[c]) == 1) == nondom(s, X, c), 0, len(X))")
+define("fronts_pos", ["X"], "forall(lambda c: is_none(fr(X[c])) or fr(X[c]) >= 1, 0, len(X))")
+# the front lists: members of the population that carry a front number, no member twice
+define("pf_wf", ["pf", "X"],
+       "fresh(pf) and forall(lambda k: valid(pf[k]) and fresh(pf[k]) and pf[k] is not pf, 0, len(pf)) and "
+       "forall(lambda k, l: implies(k != l, pf[k] is not pf[l]), (0, len(pf)), (0, len(pf))) and "
+       "forall(lambda k: forall(lambda t: not is_none(fr(pf[k][t])) and exists(lambda c: pf[k][t] is X[c], 0, len(X)), 0, len(pf[k])), 0, len(pf)) and "
+       "forall(lambda k: forall(lambda t, u: implies(t != u, pf[k][t] is not pf[k][u]), (0, len(pf[k])), (0, len(pf[k]))), 0, len(pf))")
+_FMOD = ["each(individuals).features.front_number", "each(individuals).features.domination_counter",
+         "each(individuals).features.dominate", "each(individuals).features.crowding_distance", "$list.Int", "$len.Int"]
+contract("artap.operators:Selector.fast_nondominated_sorting#front1", props=["C02"],
+         types={"individuals": "List[Ref[Individual]]"},
+         locals={"pareto_front": "List[List[Ref[Individual]]]", "front_number": "Int", "p": "Ref[Individual]", "q": "Ref[Individual]",
+                 "dom": "Int", "individual_id": "Int", "sub_front": "List[Ref[Individual]]", "individual": "Ref[Individual]"},
+         requires=["pop_wf(self, individuals)"],
+         ensures=["front1_exact(self, individuals)", "fronts_pos(individuals)", "unchanged(individuals)"],
+         loops={
+             1: ["unchanged(individuals)", "fresh(pareto_front)", "len(pareto_front) == 1", "valid(pareto_front[0])", "fresh(pareto_front[0])",
+                 "len(pareto_front[0]) == 0", "front_number == 1",
+                 "forall(lambda c: cnt(individuals[c]) == 0 and is_none(fr(individuals[c])) and len(doml(individuals[c])) == 0, 0, _k)",
+                 "doml_wf(individuals, _k)"],
+             2: ["unchanged(individuals)", "front_number == 1", "len(pareto_front) == 1", "pf_wf(pareto_front, individuals)",
+                 "doml_wf(individuals, len(individuals))", "cnt_inv(self, individuals, _k, 0)",
+                 "forall(lambda c: (not is_none(fr(individuals[c])) and fr(individuals[c]) == 1) == nondom(self, individuals, c), 0, _k)",
+                 "forall(lambda c: is_none(fr(individuals[c])) or fr(individuals[c]) == 1, 0, len(individuals))",
+                 "forall(lambda c: is_none(fr(individuals[c])), _k, len(individuals))"],
+             3: ["unchanged(individuals)", "front_number == 1", "len(pareto_front) == 1", "pf_wf(pareto_front, individuals)",
+                 "i == _k2", "_k2 < len(individuals)", "p is individuals[_k2]", "_k3 <= len(individuals) - i - 1",
+                 "doml_wf(individuals, len(individuals))", "cnt_inv(self, individuals, i, i + 1 + _k3)",
+                 "forall(lambda c: (not is_none(fr(individuals[c])) and fr(individuals[c]) == 1) == nondom(self, individuals, c), 0, i)",
+                 "forall(lambda c: is_none(fr(individuals[c])) or fr(individuals[c]) == 1, 0, len(individuals))",
+                 "forall(lambda c: is_none(fr(individuals[c])), i, len(individuals))"],
+             4: ["unchanged(individuals)", "front_number >= 1", "len(pareto_front) == front_number", "pf_wf(pareto_front, individuals)",
+                 "doml_wf(individuals, len(individuals))", "front1_exact(self, individuals)", "fronts_pos(individuals)"],
+             5: ["unchanged(individuals)", "front_number >= 2", "len(pareto_front) == front_number", "pf_wf(pareto_front, individuals)",
+                 "doml_wf(individuals, len(individuals))", "front1_exact(self, individuals)", "fronts_pos(individuals)",
+                 "_it is pareto_front[front_number - 2]", "_k <= len(_it)", "stable(_it)"],
+             6: ["unchanged(individuals)", "front_number >= 2", "len(pareto_front) == front_number", "pf_wf(pareto_front, individuals)",
+                 "doml_wf(individuals, len(individuals))", "front1_exact(self, individuals)", "fronts_pos(individuals)",
+                 "_it5 is pareto_front[front_number - 2]", "_k5 < len(_it5)", "stable(_it5)", "p is _it5[_k5]",
+                 "_k6 <= len(doml(p))"],
+             7: ["unchanged(individuals)", "front1_exact(self, individuals)", "fronts_pos(individuals)", "stable(pareto_front)",
+                 "_k <= len(pareto_front)",
+                 "forall(lambda k: valid(pareto_front[k]) and pareto_front[k] is not pareto_front and front_wf(pareto_front[k]) and "
+                 "distinct_list(pareto_front[k]) and forall(lambda t: exists(lambda c: pareto_front[k][t] is individuals[c], 0, len(individuals)), "
+                 "0, len(pareto_front[k])), _k, len(pareto_front))",
+                 "forall(lambda k, l: implies(k != l, pareto_front[k] is not pareto_front[l]), (0, len(pareto_front)), (0, len(pareto_front)))"]},
+         modifies=_FMOD, allocates=["$list.Ref", "$len.Ref", "$list.Int", "$len.Int"])
